@@ -41,6 +41,9 @@ CHECKS = {
     "C13": ("model_checking", GRID + "; plus conformance of every epoch of scripted real groups to the reference (shadow joiner)",
             "Every derivation (key schedule, secret tree, per-generation keys, PSK chain, exporter, ExpandWithLabel) is compared with an independent RFC 9420 implementation over an enumerated input grid for every suite of every provider, and every epoch of scripted real groups is re-derived by the reference from the Welcome's joiner secret / the previous init secret and compared with what the members hold, including transcript hashes and tags recomputed from wire bytes.",
             "Trusted: reference::keysched on sha2/hmac; hook derive::* (thin wrappers over the crate-private functions) and verif_epoch_keys (read-only).", "DESIGN.md 2/C13"),
+    "C17": ("model_checking", "exhaustive enumeration of (old-group shape, re-init/branch, creator, successor member set, key-package order) cases executed from scratch on the real implementation, judged by an identity-set predicate",
+            "Old-group gallery (dense, interior blank leaf, re-keyed member, external-commit joiner) x re-init / branch x every creator x every successor member set (all subsets, superset by an outsider, each member replaced) x key-package orders: creation and joining succeed exactly when the identity sets are equal (re-init) / a subset (branch); outsiders, ex-members and cross-used Welcomes are refused; the old group refuses commits after the re-init.",
+            "Trusted: explorer. 6 identities, 6 old-group shapes.", "DESIGN.md 2/C17"),
     "C18": ("model_checking", "exhaustive enumeration of (PSK list, by value/by reference, holder assignment) cases on forks of a real base world, judged by a reference 'holds every listed PSK' predicate",
             "Every ordered PSK list of 1..3 entries over two external ids and resumption epochs 0..7, by value and by reference, with every assignment of {same, other, absent} values to two receivers and a Welcome joiner whose retention windows and join epochs differ: a party reaches the new epoch exactly when it holds the committer's value for every listed PSK, otherwise it refuses and is unchanged; all derived epoch secrets are sensitive to value, id, nonce and order of any one PSK.",
             "Trusted: explorer, hook verif_state / derive. 4 parties, one commit per case.", "DESIGN.md 2/C18"),
